@@ -31,7 +31,7 @@ std::vector<Op> menu_ops()
 
 struct Exec
 {
-	std::vector<Op> menu; int DEPTH; Chooser* ch; Ctx* ctx;
+	std::vector<Op> menu; int DEPTH; Chooser* ch; Ctx* ctx; bool prelisten = false;
 	std::vector<std::string> fails, log; int ops_done = 0;
 	uint64_t n_pairs = 0, n_refused = 0, n_queued = 0, n_tags = 0;
 
@@ -218,6 +218,7 @@ struct Exec
 			c[i]->open(i == 3 ? ip::tcp::v6() : ip::tcp::v4()); c[i]->bind(ip::tcp::endpoint(addr(CADDR[i]), (unsigned short)CPORT[i]));
 		}
 		timer.reset(new asio::high_resolution_timer(sim->get_io_context()));
+		if (prelisten) for (int a = 0; a < 2; ++a) { error_code ec; A[a]->listen(10, ec); ma[a].listening = true; } // non-initial start state: both acceptors listening
 		step();
 		sim->run();
 		// final clauses
@@ -257,23 +258,29 @@ struct Exec
 
 struct PairEngine : Engine
 {
-	int D = 5; std::vector<std::vector<int>> unit_prefix;
+	int D = 5; std::vector<std::vector<int>> unit_prefix; std::vector<int> unit_variant; bool thorough_ = false;
+	// the initial-state variant is explored one op shallower in the quick tier: with both acceptors already listening (variant 1)
+	// the same depth reaches further (three queued connects + two accepts fit in 6 ops)
+	int depth_of(int variant) const { return thorough_ ? 7 : (variant == 0 ? 5 : 6); }
 	uint64_t units(Args const& a) override
 	{
-		D = a.thorough() ? 7 : 6; unit_prefix.clear();
-		Chooser c0; c0.reset({}); { Exec e(D, &c0, nullptr); e.run(); }
-		int n0 = c0.trace.empty() ? 1 : c0.trace[0].first;
-		for (int a0 = 0; a0 < n0; ++a0) {
-			Chooser c1; c1.reset({ a0 }); { Exec e(D, &c1, nullptr); e.run(); }
-			if (c1.trace.size() < 2) { unit_prefix.push_back({ a0 }); continue; }
-			for (int k = 0; k < c1.trace[1].first; ++k) unit_prefix.push_back({ a0, k });
+		unit_prefix.clear(); unit_variant.clear(); thorough_ = a.thorough();
+		for (int variant = 0; variant < 2; ++variant) {
+			D = depth_of(variant);
+			Chooser c0; c0.reset({}); { Exec e(D, &c0, nullptr); e.prelisten = variant == 1; e.run(); }
+			int n0 = c0.trace.empty() ? 1 : c0.trace[0].first;
+			for (int a0 = 0; a0 < n0; ++a0) {
+				Chooser c1; c1.reset({ a0 }); { Exec e(D, &c1, nullptr); e.prelisten = variant == 1; e.run(); }
+				if (c1.trace.size() < 2) { unit_prefix.push_back({ a0 }); unit_variant.push_back(variant); continue; }
+				for (int k = 0; k < c1.trace[1].first; ++k) { unit_prefix.push_back({ a0, k }); unit_variant.push_back(variant); }
+			}
 		}
 		return unit_prefix.size();
 	}
 	void run_unit(uint64_t u, Ctx& ctx) override
 	{
 		ctx.watchdog_s = 10;
-		std::vector<int> pre = unit_prefix[size_t(u)]; size_t base = pre.size();
+		std::vector<int> pre = unit_prefix[size_t(u)]; size_t base = pre.size(); D = depth_of(unit_variant[size_t(u)]);
 		++ctx.ordinal; std::vector<int> start = pre;
 		if (ctx.resuming && ctx.cur_unit == ctx.r_unit) {
 			auto const& t = ctx.r_trace; int i = int(t.size()) - 1;
@@ -282,9 +289,9 @@ struct PairEngine : Engine
 			start.clear(); for (int k = 0; k < i; ++k) start.push_back(t[size_t(k)].second); start.push_back(t[size_t(i)].second + 1);
 		}
 		ctx.explore_from([&](Chooser& ch) {
-			Case c; c.set("depth", D).set_ints("choices", ch.prefix);
+			Case c; c.set("depth", D).set("prelisten", unit_variant[size_t(u)]).set_ints("choices", ch.prefix);
 			ctx.begin(c);
-			Exec e(D, &ch, &ctx); e.run();
+			Exec e(D, &ch, &ctx); e.prelisten = unit_variant[size_t(u)] == 1; e.run();
 			c.set_ints("choices", ch.taken());
 			std::string o; for (int i = 0; i < 4; ++i) o += fmt("c%d:%s@%lld>%d;", i, e.mc[i].ec.c_str(), (long long)e.mc[i].t_done, e.mc[i].acc_idx);
 			ctx.outcome(o);
@@ -305,7 +312,7 @@ struct PairEngine : Engine
 	int replay(Case const& c, Args const& a) override
 	{
 		units(a); D = int(c.num("depth", D));
-		Chooser ch; ch.reset(c.ints("choices")); Exec e(D, &ch, nullptr); e.run();
+		Chooser ch; ch.reset(c.ints("choices")); Exec e(D, &ch, nullptr); e.prelisten = c.num("prelisten") != 0; e.run();
 		for (auto& l : e.log) std::fprintf(stdout, "%s\n", l.c_str());
 		for (auto& f : e.fails) std::fprintf(stdout, "VIOLATION %s\n", f.c_str());
 		std::fprintf(stdout, e.fails.empty() ? "=> ok\n" : "=> %zu violation(s)\n", e.fails.size());
